@@ -281,6 +281,12 @@ class End:
         self.read_paused = False
         self.read_stopped = False
         self.stalled = False        # fault: receiver does not drain
+        self.rate = None            # slow path: bytes per simulated second
+        #                             that can be delivered to this end
+        self.rate_burst = 0
+        self.tokens = 0.0
+        self.tokens_t = None
+        self.rate_wake = None       # pending DelayedCall that refills
         self.lost_pending = None    # Failure to deliver as connectionLost
         self.fin_sent = False
         self.fin_inbound = False    # peer's FIN queued behind self.inflight
@@ -543,6 +549,8 @@ class Net:
             data = bytes(end.inflight[:k])
             del end.inflight[:k]
             end.rx_count += len(data)
+            if self.autoflush and len(end.peer.sendbuf) and end.peer.alive:
+                self.dirty.add(end.peer)    # room in the window again
         else:
             idx = 0
             if link.picker is not None and len(end.inflight) > 1:
@@ -808,6 +816,10 @@ class Sim:
                     continue
                 if end.read_paused or end.stalled:
                     continue
+                if len(end.inflight) and end.rate is not None and \
+                        link.mode == "stream":
+                    if not self._rate_ready(end, now):
+                        continue
                 if len(end.inflight):
                     evs.append((w["deliver"], "deliver", end))
                     any_io = True
@@ -829,6 +841,26 @@ class Sim:
                          for l in net.links))):
             evs.append((w["advance"], "advance", None))
         return evs
+
+    def _rate_ready(self, end, now):
+        """Token bucket of a bandwidth-limited path (simulated time). When
+        empty, one timer is left pending so that the clock can move on."""
+        if end.tokens_t is None:
+            end.tokens_t = now
+            end.tokens = float(end.rate_burst)
+        elif now > end.tokens_t:
+            end.tokens = min(float(end.rate_burst),
+                             end.tokens + end.rate * (now - end.tokens_t))
+            end.tokens_t = now
+        if end.tokens >= 1.0:
+            return True
+        if end.rate_wake is None or not end.rate_wake.active():
+            need = max(1.0, end.rate_burst / 4.0)
+
+            def wake():
+                end.rate_wake = None
+            end.rate_wake = self.reactor.callLater(need / end.rate, wake)
+        return False
 
     def _chunk(self, end):
         n = len(end.inflight)
@@ -913,6 +945,9 @@ class Sim:
             self.ev("flush", obj.serial, k)
         elif kind == "deliver":
             k = self._chunk(obj)
+            if obj.rate is not None and obj.link.mode == "stream":
+                k = max(1, min(k, int(obj.tokens)))
+                obj.tokens -= k
             self.ev("deliver", obj.serial, k)
             net.deliver(obj, k)
         elif kind == "eof":
